@@ -215,10 +215,13 @@ def run(ctx):
     # comparisons  (values are dyadic: logged multiplied by 64 as integers - the comparison is scale free)
     for _ in range(600 if T else 150):
         n = rnd.choice([1, 2, 5, 32, 257])
-        sig = np.array([rnd.randrange(0, 640) for _ in range(n)]) / 64
-        noise = np.array([rnd.randrange(-64, 64) for _ in range(n)]) / 64 if rnd.random() < 0.5 else None
+        intsig = rnd.random() < 0.4          # integer-dtype samples with a fractional threshold too
+        sig = np.array([rnd.randrange(0, 10) for _ in range(n)]) if intsig else np.array([rnd.randrange(0, 640) for _ in range(n)]) / 64
+        noise = (np.array([rnd.randrange(-1, 2) for _ in range(n)]) if intsig else np.array([rnd.randrange(-64, 64) for _ in range(n)]) / 64) if rnd.random() < 0.5 else None
         thr_arr = rnd.random() < 0.4
         thr = np.array([rnd.randrange(0, 640) for _ in range(n)]) / 64 if thr_arr else rnd.randrange(0, 640) / 64
+        if intsig and rnd.random() < 0.5:
+            thr = (sig + 0.5) if thr_arr else float(sig[0]) + 0.5
         if rnd.random() < 0.15:
             thr = sig[0] if not thr_arr else sig.copy()     # ties
         op = rnd.choice(["gt", "lt"])
@@ -235,7 +238,7 @@ def run(ctx):
         events.append({"kind": "cmp", "op": op, "sig": [int(v * 64) for v in sig], "noise": [] if noise is None else [int(v * 64) for v in noise],
                        "thr": [int(v * 64) for v in (thr if thr_arr else [thr])], "out": bits(out)})
         meta.append(("cmp", op))
-        ctx.case(("cmp", op, noise is not None, thr_arr, min(n, 3)))
+        ctx.case(("cmp", op, noise is not None, thr_arr, min(n, 3), intsig))
         # complex / negative data: only closure is stated
         z = electrical_signal(sig * np.exp(1j * np.arange(n)) - 2, noise)
         with deadline(30):
